@@ -4,7 +4,6 @@
   `converters()` has a compressor layer exactly when the store is not uncompressed.
 -/
 import Desync.Properties.C03StoreOpts
-import Desync.Properties.C03StoreOptsGen
 
 namespace Desync.C20
 open Desync Desync.StoreOpts
@@ -23,12 +22,6 @@ theorem format_of_other_locations_irrelevant {κ : Type} (m : κ → Bool) (e1 e
     (cmd : CmdStoreOptions) (h : e1.filter (fun e => m e.1) = e2.filter (fun e => m e.1)) :
     (storeOptionsFor m e1 cmd).map converters = (storeOptionsFor m e2 cmd).map converters := by
   rw [C03.other_locations_entries_irrelevant m e1 e2 cmd h]
-
-/-- regenerated: `Uncompressed` reaches every backend exactly as the configuration entry of the location has it -/
-theorem gen_store_format (i : Gen.StoreoptsIn) :
-    (C03.genSFL i).uncompressed = i.cfgB "Uncompressed" ∧ (C03.genISFL i).uncompressed = i.cfgB "Uncompressed" ∧
-    Gen.storeoptsSFLUniform = true ∧ Gen.storeoptsISFLUniform = true := by
-  refine ⟨?_, ?_, C03.gen_store_dispatch.1, C03.gen_store_dispatch.2.1⟩ <;> optwire
 
 example : converters (mergedWith ⟨1, "", "", "", true, 0, 0, false, false, false, true, false, false⟩ { defaults with uncompressed := true }) = [] := by
   decide
